@@ -118,7 +118,48 @@ def rule_correspondence(repo, rule):
                 g = ("!=0", g0[1])
         term = "%s returns %s: tests %s; the operator means %s" % (name, norm(rr[0].value) if rr else None,
                                                                    show(g) if g else None, show(want))
-        if g is not None and g == want:
+        # every OTHER way out of the operator must be the same test too (or NotImplemented): an early return of a ready-made answer
+        # is an answer that was not computed from the operand
+        stray = None
+        for r_ in rr[1:]:
+            if r_.value is None or norm(r_.value) == "NotImplemented":
+                continue
+            g2 = gadget_relation(r_.value, env)
+            if g2 is None and isinstance(r_.value, ast.UnaryOp) and isinstance(r_.value.op, ast.Invert):
+                g0 = gadget_relation(r_.value.operand, env)
+                g2 = ("!=0", g0[1]) if g0 is not None and g0[0] == "==0" else None
+            if g2 != want:
+                stray = r_
+        if g is not None and g == want and stray is not None:
+            # a ready-made answer for a public operand beyond +-2^E is right exactly when the secret operand is known to lie within:
+            # the dominating refusal `x.bit_length() > W` must have W <= E
+            from ..hints import paths_to as _ptc
+            from ..flatten import resolve_locals as _rlc
+            verdict = "undecided"
+            for pth in _ptc(fi.node, stray):
+                W = E = None
+                for t_, pol_ in pth.conds:
+                    for x_ in ast.walk(_rlc(fi.node, t_)):
+                        if isinstance(x_, ast.Compare) and len(x_.ops) == 1 and ".bit_length()" in norm(x_.left) and isinstance(x_.ops[0], ast.Gt):
+                            W = poly_of(x_.comparators[0], {"bitlength": P.sym("bl")}, strict=True)
+                        if isinstance(x_, ast.BinOp) and isinstance(x_.op, ast.LShift) and norm(x_.left) == "1":
+                            e_ = poly_of(x_.right, {"bitlength": P.sym("bl")}, strict=True)
+                            E = e_ if e_ is not None else E
+                if W is not None and E is not None and (W - E).is_const():
+                    verdict = "ok" if (W - E).const_value() <= 0 else "violation: values up to 2^(%s) pass the refusal, the answer assumes |x| < 2^(%s)" % (W, E)
+                    if verdict != "ok":
+                        break
+            if verdict == "ok":
+                rule.ok(fi.loc(stray), fi.fq, "%s: ready-made answer for a public operand beyond the value range" % name, "the dominating "
+                        "refusal bounds the secret operand within that range")
+            elif verdict.startswith("violation"):
+                rule.violation(fi.loc(stray), fi.fq, "%s also returns `%s`" % (name, norm(stray.value)[:60]), "the comparison has a way out "
+                               "that does not go through the test of `%s`, and its domain check is too weak (%s): for such operands the "
+                               "answer differs from Python's" % (show(want), verdict[11:]), "cmp/%s/stray" % name)
+            else:
+                rule.undecided(fi.loc(stray), fi.fq, "%s also returns `%s`" % (name, norm(stray.value)[:60]), "a way out of the comparison "
+                               "that does not go through its test; its domain argument is not interpretable")
+        elif g is not None and g == want:
             rule.ok(fi.loc(), fi.fq, term)
         elif g is None:
             rule.undecided(fi.loc(), fi.fq, term, "comparison not in gadget form")
@@ -452,7 +493,7 @@ def rule_divisor(repo, rule):
                             fine = fine and pol
                         elif not pol and _falsified_by_zero(c):
                             zero_here = True
-                        elif "isinstance(" in tc or (tc == "ignore_errors()" and not pol):
+                        elif "isinstance(" in tc or (tc == "ignore_errors()" and not pol) or (tc == "notignore_errors()" and pol):
                             pass
                         else:
                             fine = False
